@@ -33,6 +33,10 @@ func shapeString(t types.Type) string {
 		case *types.Struct, *types.Interface:
 			return x.String()
 		}
+		// only the module's own named types are shorthand; time.Duration, context.CancelFunc … are what they are called
+		if x.Obj().Pkg() == nil || !strings.HasPrefix(x.Obj().Pkg().Path(), modPath) {
+			return x.String()
+		}
 		return shapeString(x.Underlying())
 	case *types.Pointer:
 		return "*" + shapeString(x.Elem())
